@@ -487,7 +487,9 @@ impl<Meta: ObjectMeta> Archive<Meta> {
         }
 
         // We are further down the chain.
+        let mut guard = ChainGuard::new(&self.file);
         while let Some(pos) = curr {
+            guard.step()?;
             let header = ObjectHeader::read(&self.file, pos.into())?;
             if header.next == start {
                 ObjectHeader::update_next(pos.into(), next, &mut self.file)?;
